@@ -144,7 +144,37 @@ def _consistent(steps: list[Step], new: Step) -> bool:
     while isinstance(test, ast.UnaryOp) and isinstance(test.op, ast.Not):
         test = test.operand
         polarity = not polarity
+    # ``name is [not] None`` right after ``name = None`` / ``name = <arithmetic>``
+    none_test = None
+    if isinstance(test, ast.Compare) and len(test.ops) == 1 and isinstance(test.ops[0], (ast.Is, ast.IsNot)):
+        l, r = test.left, test.comparators[0]
+        if isinstance(l, ast.Name) and isinstance(r, ast.Constant) and r.value is None:
+            none_test = (l.id, isinstance(test.ops[0], ast.Is))
     for prev in reversed(steps):
+        if none_test is not None and prev.kind == "stmt" and isinstance(prev.node, ast.Assign) and len(prev.node.targets) == 1:
+            t = prev.node.targets[0]
+            if isinstance(t, ast.Name) and t.id == none_test[0]:
+                val = prev.node.value
+                is_none = None
+                if isinstance(val, ast.Constant):
+                    is_none = val.value is None
+                elif isinstance(val, ast.BinOp) or (isinstance(val, ast.Call) and isinstance(val.func, ast.Name) and val.func.id in ("min", "max", "len", "int", "abs", "sum")):
+                    is_none = False
+                if is_none is None and isinstance(val, (ast.Name, ast.Attribute)):
+                    # alias of something whose None-ness was tested earlier on this path
+                    vt = src(val)
+                    for older in reversed(steps[: steps.index(prev)]):
+                        if older.kind == "cond":
+                            ot, op_ = older.node, older.value
+                            while isinstance(ot, ast.UnaryOp) and isinstance(ot.op, ast.Not):
+                                ot, op_ = ot.operand, not op_
+                            if isinstance(ot, ast.Compare) and len(ot.ops) == 1 and isinstance(ot.ops[0], (ast.Is, ast.IsNot)) and src(ot.left) == vt and isinstance(ot.comparators[0], ast.Constant) and ot.comparators[0].value is None:
+                                is_none = isinstance(ot.ops[0], ast.Is) == op_
+                                break
+                        if set(_binds(older)) & names_read(val):
+                            break
+                if is_none is not None:
+                    return (is_none == none_test[1]) == polarity
         if prev.kind == "cond":
             ptest = prev.node
             ppol = prev.value
